@@ -106,8 +106,11 @@ class PopenSpawn(SpawnBase):
             buf = b''
             try:
                 buf = os.read(fileno, 1024)
-            except OSError as e:
-                self._log(e, 'read')
+            except OSError:
+                # A failed read ends the stream (handled as EOF below); the
+                # exception object is not child output and must not be
+                # written to the log files.
+                pass
 
             if not buf:
                 # This indicates we have reached EOF
